@@ -35,9 +35,53 @@ fn parse_val(s: &str, results: &[Val]) -> Option<Val> {
         }
         "str" => Val::str(&unhex(v)?[..]),
         "func" => Val::Func(find_func(stdlib::root(), v)?),
+        "pkt" => {
+            let b = unhex(v)?;
+            let p = pkt::Packet::with_capacity(b.len());
+            p.push_bytes(&b[..]);
+            Val::from(p)
+        }
+        "pktgen" => {
+            let inner = v.strip_prefix('[')?.strip_suffix(']')?;
+            let mut ps = Vec::new();
+            for h in inner.split(',').filter(|x| !x.is_empty()) {
+                let b = unhex(h)?;
+                let p = pkt::Packet::with_capacity(b.len());
+                p.push_bytes(&b[..]);
+                ps.push(p);
+            }
+            Val::from(ps)
+        }
+        "mk" => mk_obj(v)?,
+        "mkm" => {
+            let (k, m) = v.split_once('.')?;
+            mk_obj(k)?.method_lookup(m).ok()?
+        }
         "timejump" => Val::TimeJump(v.parse().ok()?),
         _ => return None,
     })
+}
+
+/// a fresh object of the given kind, made by the real constructor with fixed arguments
+fn mk_obj(kind: &str) -> Option<Val> {
+    let sock = |a: u32, p: u16| Val::Sock4(SocketAddrV4::new(Ipv4Addr::from(a), p));
+    let ip = |a: u32| Val::Ip4(Ipv4Addr::from(a));
+    let an = |v: Val| ArgSpec::new(None, v);
+    let (path, args): (&str, Vec<ArgSpec>) = match kind {
+        "tcp" => ("ipv4::tcp::flow", vec![an(sock(0x01020304, 1000)), an(sock(0x05060708, 80))]),
+        "udp" => ("ipv4::udp::flow", vec![an(sock(0x01020304, 1000)), an(sock(0x05060708, 53))]),
+        "icmp" => ("ipv4::icmp::flow", vec![an(ip(0x01020304)), an(ip(0x05060708))]),
+        "frag" => ("ipv4::frag", vec![an(ip(0x01020304)), an(ip(0x05060708)), an(Val::str(&b"0123456789abcdefghij"[..]))]),
+        "vxlan" => ("vxlan::session", vec![an(sock(0x01020304, 1000)), an(sock(0x05060708, 4789))]),
+        "gre" => ("gre::session", vec![an(ip(0x01020304)), an(ip(0x05060708)), an(Val::U64(0x6558))]),
+        "erspan1" => ("erspan1::session", vec![an(ip(0x01020304)), an(ip(0x05060708))]),
+        "erspan2" => ("erspan2::session", vec![an(ip(0x01020304)), an(ip(0x05060708))]),
+        "bufio" => ("io::bufio", vec![an(Val::str(&b"0123456789"[..]))]),
+        _ => return None,
+    };
+    let f = find_func(stdlib::root(), path)?;
+    let a = f.args(None, args).ok()?;
+    (f.exec)(a).ok()
 }
 
 fn parse_argspecs(args: &[&str], results: &[Val]) -> Option<Vec<ArgSpec>> {
